@@ -404,3 +404,213 @@ def run_named(prog, ctx=None):
             raise Broken("anchor missing: " + name)
         check_function(prog, res, f, [f.params[idx]["id"]], null_or_neg)
     return res
+
+
+def _can_fail(g):
+    """the function has a return of a negative constant, or of a null pointer constant"""
+    if g.nocfg:
+        return False
+    isptr = g.T(g.d.get("ret")).get("k") == "ptr" if g.d.get("ret") is not None else False
+    for b, i, e in g.elements():
+        if e.get("k") == "ret" and e.get("e") is not None:
+            cv = cval(e["e"])
+            if cv is not None and (cv < 0 or (cv == 0 and isptr)):
+                return True
+    return False
+
+
+def call_sites(prog, only=None):
+    """(function, call, callee key, result ignored) for every call of a repository function that can fail, and of every
+    function-pointer member (keyed `->name`): the result is ignored when the call is a statement of its own or cast to void"""
+    from .facts import callee_name as _cn
+    for f in ([only] if only is not None else sorted(prog.functions.values(), key=lambda f: (f.file, f.line, f.qn))):
+        if f.nocfg or f.file.startswith("examples/"):
+            continue
+        els = [e for b, i, e in f.elements()]
+        nested, voided = set(), set()
+        for e in els:
+            first = True
+            for n in walk(e):
+                if first:
+                    first = False
+                    continue
+                if "sid" in n:
+                    nested.add(n["sid"])
+                if n.get("k") == "cast" and n.get("ck") == "ToVoid":
+                    c = strip(n["e"], all_casts=True)
+                    if c.get("k") == "call" and "sid" in c:
+                        voided.add(c["sid"])
+            if e.get("k") == "cast" and e.get("ck") == "ToVoid":
+                c = strip(e["e"], all_casts=True)
+                if c.get("k") == "call" and "sid" in c:
+                    voided.add(c["sid"])
+        for e in els:
+            if e.get("k") != "call" or f.T(e.get("t")).get("k") == "void":
+                continue
+            nm = None
+            if e.get("fn"):
+                gs = prog.resolve_call(f, e)
+                if gs and not gs[0].qn.startswith(("mpt::", "std::")) and _can_fail(gs[0]):
+                    nm = gs[0].qn
+            elif e.get("callee") is not None:
+                ce = strip(e["callee"], all_casts=True)
+                if ce.get("k") == "mem":
+                    nm = "->" + ce.get("f")
+            if not nm:
+                continue
+            ign = (e.get("sid") not in nested) or (e.get("sid") in voided)
+            yield f, e, nm, ign
+
+
+def result_boundaries(prog, f):
+    """callee key -> sorted list of boundaries (x.5 values, as 2*x+1 integers) at which this function tests the results of its
+    calls of that callee: `r < c` / `r >= c` cut below c, `r <= c` / `r > c` cut above c, `r == c`, `r != c`, `!r`, `if (r)` both"""
+    from .facts import callee_name as _cn
+    calls = {}       # sid -> callee key
+    for f2, e, nm, ign in call_sites_of(prog, f):
+        if "sid" in e:
+            calls[e["sid"]] = nm
+    if not calls:
+        return {}
+    var_of = {}      # local id -> set of callee keys whose result it received
+    out = {}
+
+    def callee_in(x):
+        x = strip(x, all_casts=True)
+        if x.get("k") == "bin" and x.get("op") == "=":
+            r = callee_in(x["b"])
+            l = strip(x["a"], lvalue_to_rvalue=False)
+            if r and l.get("k") == "ref" and "id" in l["d"]:
+                var_of.setdefault(l["d"]["id"], set()).add(r)
+            return r
+        if x.get("k") == "call" and x.get("sid") in calls:
+            return calls[x["sid"]]
+        return None
+    trees = []
+    for bid, blk in f.blocks.items():
+        trees.extend(blk.el)
+        if blk.term and isinstance(blk.term.get("cond"), dict):
+            trees.append(blk.term["cond"])
+    for t in trees:
+        for n in walk(t):
+            if n.get("k") == "bin" and n.get("op") == "=":
+                callee_in(n)
+            elif n.get("k") == "decl":
+                for v in n.get("vars", []):
+                    if v.get("init") is not None:
+                        r = callee_in(v["init"])
+                        if r:
+                            var_of.setdefault(v["id"], set()).add(r)
+
+    def keys_of(x):
+        r = callee_in(x)
+        if r:
+            return {r}
+        xs = strip(x, all_casts=True)
+        if xs.get("k") == "ref" and xs["d"].get("id") in var_of:
+            return var_of[xs["d"]["id"]]
+        return set()
+
+    def add(keys, bs):
+        for k in keys:
+            out.setdefault(k, set()).update(bs)
+    for t in trees:
+        for n in walk(t):
+            if n.get("k") == "bin" and n.get("op") in ("<", "<=", ">", ">=", "==", "!="):
+                for x, y, flip in ((n["a"], n["b"], False), (n["b"], n["a"], True)):
+                    c = cval(y)
+                    ks = keys_of(x) if c is not None else set()
+                    if not ks:
+                        continue
+                    op = n["op"]
+                    if flip:
+                        op = {"<": ">", "<=": ">=", ">": "<", ">=": "<="}.get(op, op)
+                    if op in ("<", ">="):
+                        add(ks, {2 * c - 1})
+                    elif op in ("<=", ">"):
+                        add(ks, {2 * c + 1})
+                    else:
+                        add(ks, {2 * c - 1, 2 * c + 1})
+            elif n.get("k") == "un" and n.get("op") == "!":
+                add(keys_of(n["e"]), {-1, 1})
+    for bid, blk in f.blocks.items():
+        if blk.term and isinstance(blk.term.get("cond"), dict):
+            c = blk.term["cond"]
+            cs = strip(c, all_casts=True)
+            if cs.get("k") in ("call", "ref") or (cs.get("k") == "bin" and cs.get("op") == "="):
+                add(keys_of(c), {-1, 1})
+    return {k: sorted(v) for k, v in out.items()}
+
+
+def call_sites_of(prog, f):
+    for x in call_sites(prog, only=f):
+        yield x
+
+
+def run_resultclass(prog, ctx=None):
+    """RESULTCLASS: mustcheck.json also records at which boundaries each function tests the results of the calls it makes
+    (`< 0` cuts below zero, `<= 0` above, `!r` / `== 0` on both sides).  Every boundary of the reference is still a boundary now:
+    a function may distinguish more cases than it did, but a test that moved (`<= 0` to `< 0`, `!r` to `r <= 0`) treats a class
+    of results - typically the zero or the error class - like its neighbour."""
+    import json as _json, os as _os
+    res = Result("RESULTCLASS")
+    ref = _json.load(open(_os.path.join(_os.path.dirname(_os.path.abspath(__file__)), "mustcheck.json"))).get("tests", {})
+    byname = {}
+    for f in prog.functions.values():
+        byname[f.file + ":" + f.qn] = f
+    matched = 0
+    for k, callees in sorted(ref.items()):
+        f = byname.get(k)
+        if f is None or f.nocfg:
+            continue
+        matched += 1
+        cur = result_boundaries(prog, f)
+        for nm, bs in sorted(callees.items()):
+            if nm not in cur:
+                continue        # the call, or every test of its result, is gone: MUSTCHECK's business
+            lost = [b for b in bs if b not in cur[nm]]
+            ok = not lost
+            res.ob("%s:%s" % (k.split(":", 1)[1], nm), ok, f, f.line,
+                   "" if ok else "%s tested the result of %s at the boundaries %s in the reference tree and tests it at %s now: results on the two sides of %s are no longer told apart" % (
+                       f.qn, nm.lstrip("->"), [b / 2 for b in bs], [b / 2 for b in cur[nm]], [b / 2 for b in lost]))
+    if ref and matched < len(ref) * 3 // 4:
+        raise Broken("RESULTCLASS: only %d of the %d functions of the reference table still exist" % (matched, len(ref)))
+    return res
+
+
+def run_mustcheck(prog, ctx=None):
+    """MUSTCHECK: mustcheck.json records, for the unchanged tree, how many calls of functions that can report failure (negative or
+    null result) and of function-pointer members each function makes with the result used and with the result ignored (as a
+    statement of its own or cast to void).  A function that ignores more results of one callee than the reference does has
+    dropped a check the code used to make.  New functions and calls moved elsewhere are not judged."""
+    import json as _json, os as _os
+    res = Result("MUSTCHECK")
+    ref = _json.load(open(_os.path.join(_os.path.dirname(_os.path.abspath(__file__)), "mustcheck.json")))["sites"]
+    now = {}
+    where = {}
+    for f, e, nm, ign in call_sites(prog):
+        k = f.file + ":" + f.qn
+        ent = now.setdefault(k, {}).setdefault(nm, [0, 0])
+        ent[1 if ign else 0] += 1
+        if ign:
+            where.setdefault((k, nm), []).append((f, e))
+        else:
+            where.setdefault((k, nm, "f"), (f, e))
+    matched = 0
+    for k, callees in sorted(ref.items()):
+        cur = now.get(k)
+        if cur is None:
+            continue
+        matched += 1
+        for nm, (u0, i0) in sorted(callees.items()):
+            u1, i1 = cur.get(nm, [0, 0])
+            if not (u1 or i1):
+                continue
+            ok = i1 <= i0
+            f, e = (where.get((k, nm)) or [where.get((k, nm, "f"))])[-1]
+            res.ob("%s:%s" % (k.split(":", 1)[1], nm), ok, f, e.get("l", f.line),
+                   "" if ok else "%s ignores the result of %s at %d call site(s) (`%s`); the reference tree used it at %d of its %d call sites here: a check was dropped" % (
+                       f.qn, nm.lstrip("->"), i1, norm(show(e, f))[:50], u0, u0 + i0))
+    if matched < len(ref) * 3 // 4:
+        raise Broken("MUSTCHECK: only %d of the %d calling functions of the reference table still exist" % (matched, len(ref)))
+    return res
